@@ -281,6 +281,10 @@ func (g *hgen) cssDoc() *TokDoc {
 		t := Tok{Fill: g.pick(cssFills)}
 		t.Q1 = g.pick([]string{"", "'", "\""})
 		t.Q2 = t.Q1
+		if g.r.Chance(15) {
+			t.P1, t.P2 = g.pick([]string{" ", "", "\t", "  "}), g.pick([]string{" ", "", " \t"})
+			g.tag("css-padded")
+		}
 		if g.r.Chance(85) {
 			t.R = g.genRef(false)
 			if t.Q1 == "\"" && g.r.Chance(10) && len(t.R.P) > 0 && t.R.P[len(t.R.P)-1] != "" {
